@@ -28,6 +28,12 @@ def kOf? (s : String) : Option Nat :=
   if s = "-" then some 0
   else if s.startsWith "K" then (s.drop 1).toString.toNat? else none
 
+/-- `K<c>` (a contract of ours) or `U<n>` (any other address) -/
+def emitterOf? (s : String) : Option Emitter :=
+  if s.startsWith "K" then (s.drop 1).toString.toNat? |>.map Emitter.k
+  else if s.startsWith "U" then (s.drop 1).toString.toNat? |>.map Emitter.u
+  else none
+
 def kName (n : Nat) : String := if n = 0 then "-" else s!"K{n}"
 
 def parseParams (r : List String) : Option Params := do
@@ -73,6 +79,17 @@ def parseOp (t : List String) : Option Op :=
     let n ← intArg? r "amount"
     let c ← kOf? (arg r "contract")
     some (.hookSwap (arg r "from") c (dash (arg r "to")) n)
+  | "token" :: "evm_tx" :: r => do
+    let target ← emitterOf? (arg r "target")
+    let mut logs : List SwapLog := []
+    for e in listOf (dash (arg r "logs")) do
+      match e.splitOn ":" with
+      | [em, src, to, amt] =>
+        let em' ← emitterOf? em
+        let n ← amt.toInt?
+        logs := logs ++ [{ emitter := em', src := src, to := dash to, amount := n }]
+      | _ => none
+    some (.evmTx target logs)
   | "token" :: "evm_fault" :: r => some (.evmFault (arg r "mode"))
   | "token" :: "update_params" :: r => do
     let p ← parseParams r
